@@ -108,8 +108,8 @@ class V1Parser:
         if proxyStr != cls.PROXYSTR:
             raise InvalidProxyHeader()
 
-        with convertError(ValueError, InvalidNetworkProtocol):
-            networkProtocol, line = line.split(b" ", 1)
+        # Anything after UNKNOWN, including the space, may be omitted.
+        networkProtocol, _, line = line.partition(b" ")
 
         if networkProtocol not in cls.ALLOWED_NET_PROTOS:
             raise InvalidNetworkProtocol()
